@@ -37,7 +37,9 @@ RULE = (
     "degap / slice-by-feature; a gapped-parent variant ends in degap. After every step: get_features(allow_partial "
     "on/off) for the whole view, for windows drawn from the lattice of view and span boundaries (each written in one "
     "of the forms Python slicing allows: both bounds >= 0, both negative, negative stop with non-negative or omitted "
-    "start, negative start with positive or omitted stop, bounds omitted) and by biotype; for each returned feature get_slice, map coordinates and parent[feature]. "
+    "start, negative start with positive or omitted stop, bounds omitted) and by biotype; for each returned feature get_slice(), map coordinates, parent[feature], "
+    "get_slice(allow_gaps=True) (covering span, gaps/introns kept, reverse-complemented for a reverse feature) and "
+    "get_slice(complete=True) (same as the default when the feature is wholly present). "
     "Alignment level (old Alignment; there is no new-type Alignment in this tree): 1-3 (thorough 1-5) gapped rows, "
     "sequence features on rows introduced by add_feature(seqid=) / loaded db / GFF, alignment features "
     "(on_alignment=True, either strand); history over column slice / rc / copy / deepcopy(sliced|unsliced) / "
@@ -113,6 +115,26 @@ def clip(spans, lo, hi):
 def exp_slice(parent, spans, strand, lo, hi):
     s = "".join(parent[a:b] for a, b in clip(spans, lo, hi))
     return rc(s) if strand == "-" else s
+
+
+def exp_slice_gaps(parent, spans, strand, lo, hi):
+    """get_slice(allow_gaps=True): the covering span of what the view retains of the feature, everything between
+    the spans kept, reverse-complemented when the feature is on '-'"""
+    c = clip(spans, lo, hi)
+    if not c:
+        return ""
+    s = parent[min(a for a, _ in c) : max(b for _, b in c)]
+    return rc(s) if strand == "-" else s
+
+
+def intervals(S):
+    out = []
+    for x in sorted(S):
+        if out and out[-1][1] == x:
+            out[-1][1] = x + 1
+        else:
+            out.append([x, x + 1])
+    return [tuple(i) for i in out]
 
 
 def exp_positions(spans, view):
@@ -789,6 +811,53 @@ def ignores_bounds(parent, view, model):
     return {"label": D11_OLD, "parent": parent, "view": view, "model": dict(model), "no_filter": True}
 
 
+def slice_options(ctx, f, parent, spans, strand, view, hyps, got, relwin, ap, level, impl, exp, nt, classes, det):
+    """get_slice(allow_gaps=True) and get_slice(complete=True) of a feature whose default slice is already right"""
+    res = ctx.res
+    lo, hi, rev = view
+    res.evals += 1
+    res.count(f"{level}:slice-allow-gaps-decisions")
+    expg = exp_slice_gaps(parent, spans, strand, lo, hi)
+    try:
+        g = str(f.get_slice(allow_gaps=True))
+    except Exception as e:  # noqa: BLE001
+        ctx.witness(exc_mechanism(f"C04/{level}-feature-slice-allow-gaps", e), error=repr(e)[:300], expected=expg, **det)
+        return False
+    if nt:
+        res.sig(level, impl, strand, min(len(spans), 3), classes, rev, ctx.op, "allow-gaps")
+    if (strand == "-") != rev:
+        res.count("allow-gaps-on-reverse-feature")
+    if g != expg:
+        why = None
+        for h in hyps or ():
+            if f.name in h["model"] and explain([h], got, relwin, ap):
+                hs, hst = h["model"][f.name]
+                if g == exp_slice_gaps(h["parent"], hs, hst, h["view"][0], h["view"][1]):
+                    why = h["label"]
+                    break
+        mech = named(why, impl) if why else generic(ctx, level, "feature-slice-allow-gaps", impl)
+        ctx.witness(mech, check="feature-slice-allow-gaps", got=g, expected=expg, map=repr(f.map), **det)
+        return False
+    # complete=True is documented to fail when the feature is not wholly present; when it is, nothing changes
+    whole = all(lo <= a and b <= hi for a, b in spans)
+    res.evals += 1
+    try:
+        gc_ = str(f.get_slice(complete=True))
+    except Exception as e:  # noqa: BLE001
+        if whole:
+            ctx.witness(exc_mechanism(f"C04/{level}-feature-slice-complete", e), error=repr(e)[:300], expected=exp, **det)
+            return False
+        res.refused += 1
+        return True
+    res.count(f"{level}:slice-complete-decisions")
+    if whole and gc_ != exp:
+        ctx.witness(generic(ctx, level, "feature-slice-complete", impl), check="feature-slice-complete", got=gc_, expected=exp, **det)
+        return False
+    if not whole:
+        res.count("complete-on-partial-feature-did-not-fail")
+    return True
+
+
 def check_seq_features(ctx, obj, parent, view, model, hyps, relwin, ap, got, qkind, level="seq"):
     """membership + slice + coordinates + parent[feature] of one query result against the model.
     parent: plus-strand parent string; view: (lo, hi, rev) the object shows; relwin: queried window in
@@ -881,6 +950,12 @@ def check_seq_features(ctx, obj, parent, view, model, hyps, relwin, ap, got, qki
         res.count(f"{level}:getitem-feature")
         if g2 != exp:
             ctx.witness(generic(ctx, level, "getitem-feature", impl), got=g2, expected=exp, **det)
+            return
+        # the options of get_slice
+        # (once per view is enough: a window query returns the same feature bound to the same view)
+        if not qkind.startswith("window") and not slice_options(
+            ctx, f, parent, spans, strand, view, hyps, got, relwin, ap, level, impl, exp, nt, classes, det
+        ):
             return
         if len(spans) > 1:
             res.count("multi-span-decided")
@@ -1338,6 +1413,42 @@ def check_aln_feature(ctx, obj, rows, view, f, cols_all, strand, kind, nt_sig, a
     res.count("aln:getitem-feature")
     if g2 != exp:
         ctx.witness(f"C04/aln-getitem-feature/{kind}/after-{ctx.op}", got=g2, expected=exp, **det)
+        return
+    # get_slice(allow_gaps=True): every column from the first to the last retained one, gaps kept
+    res.evals += 1
+    res.count("aln:slice-allow-gaps-decisions")
+    expg = rows_at(rows, list(range(min(kept), max(kept) + 1)) if kept else [], strand == "-")
+    try:
+        gg = f.get_slice(allow_gaps=True).to_dict()
+    except Exception as e:  # noqa: BLE001
+        ctx.witness(exc_mechanism(f"C04/aln-{kind}-slice-allow-gaps", e), error=repr(e)[:300], expected=expg, **det)
+        return
+    if (strand == "-") != rev:
+        res.count("allow-gaps-on-reverse-feature")
+    if gg != expg:
+        mech = f"C04/aln-{kind}-slice-allow-gaps/after-{ctx.op}"
+        if kind == "alnfeat" and sliced_view:
+            # what the stored spans give when they are laid over the sliced alignment as they are (neither shifted
+            # nor clipped to it): a span starting at or before the new length still counts towards the covering span
+            n_view = hi - lo
+            runs = intervals(set(cols_all))
+            use = [(x, min(y, n_view)) for x, y in runs if x <= n_view]
+            if use:
+                cs, ce = min(x for x, _ in use), max(y for _, y in use)
+                if gg == rows_at(rows, list(range(lo + cs, lo + ce)), strand == "-"):
+                    mech = D8
+        ctx.witness(mech, check="slice-allow-gaps", got=gg, expected=expg, map=repr(f.map), **det)
+        return
+    whole = all(lo <= c < hi for c in cols_all)
+    if whole:
+        res.evals += 1
+        try:
+            gc_ = f.get_slice(complete=True).to_dict()
+        except Exception as e:  # noqa: BLE001
+            ctx.witness(exc_mechanism(f"C04/aln-{kind}-slice-complete", e), error=repr(e)[:300], expected=exp, **det)
+            return
+        if gc_ != exp:
+            ctx.witness(f"C04/aln-{kind}-slice-complete/after-{ctx.op}", got=gc_, expected=exp, **det)
 
 
 def row_window(row, lo, hi):
@@ -2052,6 +2163,9 @@ REQUIRED = [
     "seq:query-window-neg-strict",
     "seq:query-window-omitted-strict",
     "seq:slice-decisions",
+    "seq:slice-allow-gaps-decisions",
+    "aln:slice-allow-gaps-decisions",
+    "allow-gaps-on-reverse-feature",
     "seq:getitem-feature",
     "op:slice",
     "op:rc",
